@@ -19,7 +19,7 @@ CASE_TIMEOUT_S = 600
 STUBS = ['pathos ParallelPool -> SimPool (pickle isolation, PRNG order, worker exception -> None)',
          'cli.common.signal -> FakeSignal (fires only in the threads-under-timeout executions)']
 PROBES = ['corpus_case', 'batch_with_skipped_tx', 'last_batch_partial', 'threads_gt_1', 'multi_file', 'idx_used',
-          'index_dir_used', 'foreign_index_refused', 'index_dir_updated_pool', 'cache_evicting', 'tx_with_fusion_and_circ', 'noncanonical_only',
+          'non_ascii_gvf_with_idx', 'index_dir_used', 'foreign_index_refused', 'index_dir_updated_pool', 'cache_evicting', 'tx_with_fusion_and_circ', 'noncanonical_only',
           'ref_nonempty', 'shadow_hashseed_compared', 'real_pool_calibrated', 'threads_under_timeout']
 RULE = ('case = generated reference (3-9 genes) + SNV/INDEL/fusion/circRNA/alt-splicing records; one reference '
         'execution (threads=1, one GVF per kind, no idx, raw reference) and 3-5 perturbed executions drawing '
@@ -331,6 +331,8 @@ def run_case(seed, task, tier):
                 probes['multi_file'] = probes.get('multi_file', 0) + 1
             if any(sig['idx']):
                 probes['idx_used'] = probes.get('idx_used', 0) + 1
+            if any(f.get('utf8') and f.get('idx') for f in p['layout']['files']):
+                probes['non_ascii_gvf_with_idx'] = probes.get('non_ascii_gvf_with_idx', 0) + 1
             if sig['index_dir'] != 'False':
                 probes['index_dir_used'] = probes.get('index_dir_used', 0) + 1
             if p['layout'].get('index_dir') == 'foreign' and not run.ok:
